@@ -16,7 +16,7 @@ namespace {
 
 enum { K_TRIPLE, K_NEED, K_AGG, K_LIST, K_NK };
 const char *const KN[] = {"TRIPLE", "NEED", "AGG", "LIST"};
-enum { F_NEGATE_S = NF_WORLD1 };
+enum { F_NEGATE_S = NF_WORLD1, F_DROP_ENTRIES = NF_WORLD2 };
 
 struct HalfaggSim {
     const Plan &p; Result &r; Net net;
@@ -229,10 +229,10 @@ struct HalfaggSim {
             memcpy(&msgs[32 * i], &v_list[64 * i + 32], 32);
             std::array<uint8_t, 32> a, b; memcpy(a.data(), &v_list[64 * i], 32); memcpy(b.data(), &v_list[64 * i + 32], 32); mpk.push_back(a); mmsg.push_back(b);
         }
-        Buf ab(v_agg.data(), v_agg.size());
+        Exact ab(v_agg);   // exactly the bytes received: reading past them is an out-of-bounds read
         MonMark mk = mon_mark();
         bool vn = p.c("nullptrs") && k == 0;
-        int v = v_agg.empty() ? 0 : L01(secp256k1_schnorrsig_aggverify(frugal_ctx(use_static, ctx, "secp256k1_schnorrsig_aggverify"), vn ? NULL : pks.data(), vn ? NULL : msgs.data(), k, ab.p(), v_agg.size()));
+        int v = v_agg.empty() ? 0 : L01(secp256k1_schnorrsig_aggverify(frugal_ctx(use_static, ctx, "secp256k1_schnorrsig_aggverify"), vn ? NULL : pks.data(), vn ? NULL : msgs.data(), k, ab.p, v_agg.size()));
         bool mv = !v_agg.empty() && ref::halfagg_verify(mpk, mmsg, v_agg.data(), v_agg.size());
         r.cmp();
         verdict_seen = true;
@@ -286,6 +286,13 @@ struct HalfaggSim {
         };
         net.on_crash = [&](int) { if (r.ok) agg_reboot(); };
         net.world_fault = [&](int f, Msg &m, int64_t, int64_t) -> bool {
+            // an artifact for another count: whole entries are missing from the end (aggregate for n-1 / n-2, list for n-1 / n-2)
+            if (f == F_DROP_ENTRIES && (m.kind == K_AGG || m.kind == K_LIST)) {
+                size_t unit = m.kind == K_AGG ? 32 : 64, j = 1 + (size_t)(m.bytes.size() / unit > 2 ? 1 : 0) * (size_t)(m.bytes.size() % 2);
+                if (m.bytes.size() < unit * j || m.bytes.size() == 0) return false;
+                m.bytes.resize(m.bytes.size() - unit * j);
+                return true;
+            }
             // a relay negates the aggregate scalar: (r_1..r_n, s) -> (r_1..r_n, n - s)
             if (f != F_NEGATE_S || m.kind != K_AGG || m.bytes.size() < 32 || m.bytes.size() % 32) return false;
             size_t off = m.bytes.size() - 32;
@@ -340,6 +347,7 @@ static Plan halfagg_generate(uint64_t seed, int tier) {
             else if (w < 77) f = NF_TRUNC; else if (w < 85) f = NF_EXT; else if (w < 92) f = NF_SPLICE; else f = NF_MISDELIVER;
             uint64_t kk = g.below(10);
             if (g.chance(1, 8)) { f = F_NEGATE_S; kk = 6; }
+            else if (g.chance(1, 6)) { f = F_DROP_ENTRIES; kk = g.chance(2, 3) ? 6 : 9; }
             if (kk < 5) o.a = {K_TRIPLE, (int64_t)g.below(n + 1), 0, 1, 0, f, (int64_t)g.below(1 << 16), (int64_t)g.below(256)};
             else if (kk < 8) o.a = {K_AGG, 0, 0, 0, 2, f, (int64_t)g.below(1 << 16), (int64_t)g.below(256)};
             else o.a = {K_LIST, 0, 0, 0, 2, f, (int64_t)g.below(1 << 16), (int64_t)g.below(256)};
